@@ -140,6 +140,11 @@ enum Call {
     Move(Mv),
     Evaluate(u64),
     Board,
+    /// evaluate(k) and, when a legal move is proposed, make_move it (self-play)
+    PlayProposed(u64),
+    /// set_board to the current position with castling rights removed (0 = all, 1 = the mover's
+    /// king side, 2 = the mover's queen side) and without the e.p. marker, then evaluate(k)
+    StripEvaluate(u8, u64),
 }
 
 impl Call {
@@ -149,6 +154,8 @@ impl Call {
             Call::Move(m) => format!("make_move {}", m.uci()),
             Call::Evaluate(k) => format!("evaluate {k}"),
             Call::Board => "board".into(),
+            Call::PlayProposed(k) => format!("play_proposed {k}"),
+            Call::StripEvaluate(w, k) => format!("strip_evaluate {w},{k}"),
         }
     }
     fn parse(s: &str) -> Option<Call> {
@@ -158,6 +165,11 @@ impl Call {
             "make_move" => Call::Move(Mv::parse_uci(t)?),
             "evaluate" => Call::Evaluate(t.parse().ok()?),
             "board" => Call::Board,
+            "play_proposed" => Call::PlayProposed(t.parse().ok()?),
+            "strip_evaluate" => {
+                let (w, k) = t.split_once(',')?;
+                Call::StripEvaluate(w.parse().ok()?, k.parse().ok()?)
+            }
             _ => return None,
         })
     }
@@ -193,11 +205,67 @@ struct Failure {
 /// Run a call history on engine `e` (fresh or reused) against the model; first divergence wins.
 fn execute(e: &mut ChessEngine, m: &mut ModelEngine, calls: &[Call], stats: &mut dyn FnMut(&str)) -> Option<Failure> {
     for (i, call) in calls.iter().enumerate() {
+        // the two composite calls expand, at run time, into primitive ones on the current position
+        let expanded: Vec<Call> = match call {
+            Call::PlayProposed(k) => {
+                stats("call:play_proposed");
+                let t = Counting { polls: Cell::new(0), expire: *k };
+                let (om, _score) = e.evaluate(&t);
+                match om.map(mv_back) {
+                    Some(x) if !m.pos.is_legal(x) => {
+                        return Some(Failure {
+                            kind: "proposed-move-illegal",
+                            sig: "self-play".into(),
+                            detail: format!("evaluate({k}) in {} proposed {} which is not legal", m.pos.to_fen(), x.uci()),
+                            at: i,
+                        });
+                    }
+                    Some(x) => {
+                        stats("self-play:move-played");
+                        if m.pos.is_castle(x) {
+                            stats("self-play:castled");
+                        }
+                        vec![Call::Move(x)]
+                    }
+                    None => vec![Call::Board],
+                }
+            }
+            Call::StripEvaluate(which, k) => {
+                let mut v = m.pos.clone();
+                let base = if v.turn == Col::W { 0 } else { 2 };
+                match which {
+                    0 => v.castle = [false; 4],
+                    1 => v.castle[base] = false,
+                    _ => v.castle[base + 1] = false,
+                }
+                v.ep = None;
+                if v == m.pos || v.chess_root_ok().is_err() {
+                    stats("strip:nothing-to-strip");
+                    vec![Call::Evaluate(*k)]
+                } else {
+                    stats("strip:variant-evaluated");
+                    vec![Call::SetBoard(v.to_fen()), Call::Evaluate(*k)]
+                }
+            }
+            other => vec![other.clone()],
+        };
+        for call in &expanded {
+            if let Some(f) = execute_one(e, m, call, i, stats) {
+                return Some(f);
+            }
+        }
+    }
+    None
+}
+
+fn execute_one(e: &mut ChessEngine, m: &mut ModelEngine, call: &Call, i: usize, stats: &mut dyn FnMut(&str)) -> Option<Failure> {
+    {
         match call {
+            Call::PlayProposed(_) | Call::StripEvaluate(..) => unreachable!("composite calls are expanded by execute"),
             Call::SetBoard(fen) => {
                 stats("call:set_board");
-                let Ok(p) = Position::from_fen(fen) else { continue };
-                let Ok(b) = chess_movegen::fen::parse_fen(fen.as_bytes()) else { continue };
+                let Ok(p) = Position::from_fen(fen) else { return None };
+                let Ok(b) = chess_movegen::fen::parse_fen(fen.as_bytes()) else { return None };
                 e.set_board(b);
                 m.set_board(p);
             }
@@ -279,6 +347,7 @@ fn execute(e: &mut ChessEngine, m: &mut ModelEngine, calls: &[Call], stats: &mut
                             Call::SetBoard(_) => "after-set_board".into(),
                             Call::Evaluate(_) => "after-evaluate".into(),
                             Call::Board => "after-board".into(),
+                            Call::PlayProposed(_) | Call::StripEvaluate(..) => "after-call".into(),
                         },
                         detail: format!("after {} the plugin reports {}, the reference position is {}", call.text(), p.to_fen(), m.pos.to_fen()),
                         at: i,
@@ -537,6 +606,42 @@ fn main() {
     }
     let thorough = a.tier == "thorough";
     let corpus: Vec<Position> = workload::corpus().into_iter().filter(|p| p.chess_root_ok().is_ok()).collect();
+    // self-play: the bot answers its own proposals from the initial position (and from a few other
+    // starts), so whatever it prefers to play - including anything it knows by heart - is what gets
+    // visited; after j plies the same placement is offered again with castling rights and the e.p.
+    // marker removed: the proposal must be legal THERE
+    {
+        let depth = if a.small { 3 } else { 22 };
+        let mut starts: Vec<Option<String>> = vec![None];
+        if !a.small {
+            let mut srng = Rng::new(mix3(a.seed, 0x5E1F, 1));
+            for _ in 0..3 {
+                starts.push(Some(srng.pick(&corpus).to_fen()));
+            }
+        }
+        let mut n = 0u64;
+        for (si, start) in starts.iter().enumerate() {
+            for j in 0..=depth {
+                for which in 0..3u8 {
+                    n += 1;
+                    if n % a.nshards != a.shard {
+                        continue;
+                    }
+                    let k = [120u64, 400, 40][(j + si) % 3];
+                    let mut calls: Vec<Call> = Vec::new();
+                    if let Some(f) = start {
+                        calls.push(Call::SetBoard(f.clone()));
+                    }
+                    for _ in 0..j {
+                        calls.push(Call::PlayProposed(k));
+                    }
+                    calls.push(Call::StripEvaluate(which, k));
+                    calls.push(Call::PlayProposed(k));
+                    run_case(&mut c, &api, &calls, "self-play", None);
+                }
+            }
+        }
+    }
     // fixed histories
     if a.shard == 0 {
         for (reps, set_first) in [(2usize, true), (2, false), (3, true), (3, false), (5, true), (70, true), (80, false), (300, true)] {
